@@ -291,8 +291,16 @@ func muxHarness(rc *RunCtx) {
 	doneC := make(chan int, nCallers)
 	siteDone := simrt.HarnessSite("mux.caller-done")
 
+	// family: when set, every call's FContext is a clone of one context that has already made a call (distinct
+	// FContexts with fresh op ids, but whatever a transport attached to the first one travels with the clones)
+	var family frugal.FContext
 	doCall := func(c *muxCall) {
 		ctx := frugal.NewFContext(fmt.Sprintf("cid-%d", c.id))
+		if family != nil && c.tag != "warm" {
+			ctx = frugal.Clone(family)
+		} else if c.tag == "warm" {
+			family = ctx
+		}
 		ctx.SetTimeout(c.timeout)
 		c.opid, _ = ctx.RequestHeader("_opid")
 		h := ctx.RequestHeaders()
@@ -376,6 +384,13 @@ func muxHarness(rc *RunCtx) {
 					}
 				}
 			})
+		}
+		if tp.Intn("ctxfamily", 3) == 1 {
+			rc.Fault("contexts-cloned-from-one-that-already-made-a-call")
+			warm := &muxCall{id: len(m.calls), caller: -1, tag: "warm", timeout: 2 * time.Second, plan: "canary"}
+			m.calls = append(m.calls, warm)
+			m.byTag[warm.tag] = warm
+			doCall(warm)
 		}
 		for i := 0; i < nCallers; i++ {
 			i := i
@@ -643,6 +658,20 @@ func (m *muxState) onRequest(frame []byte) {
 			k, _ := strconv.ParseUint(c.opid, 10, 64)
 			wrapped := new(big.Int).Add(new(big.Int).SetUint64(k), new(big.Int).Lsh(big.NewInt(1), 64)).String()
 			unknown = []string{wrapped, "+" + c.opid, c.opid + " ", "-" + c.opid, c.opid + ".0"}[v-3] + "|via:" + c.opid
+			m.rc.Fault("never-issued-opid-that-a-sloppy-parser-maps-onto-a-pending-call")
+		}
+		if v := tp.Intn("opidform2", 8); m.kind == "nats" && v >= 1 && v <= 6 {
+			// the same for a parser that guesses the base from a prefix, or tolerates digit separators (a bare
+			// leading zero is not among the forms: "012" IS the decimal id 12, zero-padded)
+			k, _ := strconv.ParseUint(c.opid, 10, 64)
+			form := []string{fmt.Sprintf("0x%x", k), fmt.Sprintf("0x%X", k), fmt.Sprintf("0o%o", k), fmt.Sprintf("0b%b", k), fmt.Sprintf("0X%X", k), ""}[v-1]
+			if form == "" {
+				form = c.opid[:1] + "_" + c.opid[1:]
+				if len(c.opid) < 2 {
+					form = "0_" + c.opid
+				}
+			}
+			unknown = form + "|via:" + c.opid
 			m.rc.Fault("never-issued-opid-that-a-sloppy-parser-maps-onto-a-pending-call")
 		}
 		respond("unknown", unknown, "nobody", jitter(), nil)
